@@ -115,6 +115,8 @@ def sd_nzs(period, site_class, z_factor, r_factor, n_factor):
     :param site_class: Either 'C', 'D' or 'E'
     output: sd_nzs: float or array
     """
+    if np.ndim(period) > 0:  # array of periods, as documented
+        return np.array([sd_nzs(float(p), site_class, z_factor, r_factor, n_factor) for p in period])
     if period < 0:
         raise ValueError('Structural period is negative')
     else:
